@@ -10,24 +10,27 @@ from gv.model import dbutil
 ID = "C19"
 RULE = (
     "Part 'clobber' (shards = old file database in {GFF3, GTF, GFF3 after an update, GTF without inference, GFF3 with every feature "
-    "deleted again} x new input in 3): force x input form {path, from_string, list of Features} x old database opened in this process "
-    "before or not x call variant {plain, rejected merge_strategy/force_merge_fields combination, pragmas=None, input file older than "
-    "the database} x (plain variant only) the database path written as absolute path, relative path, or a symbolic link in another "
-    "directory with a relative link text; create_db is called from a scratch working directory. Without force create_db must raise and "
-    "the file's canonical content must be unchanged (also for the failing call variants); a failing variant must raise whatever force "
-    "says; with force the import must not raise, the returned object and the reopened file show the new directives/dialect/features, "
-    "the file equals a fresh import canonically and no old feature survives. Part 'reads' (shards = 4 old databases (not the emptied "
-    "one) x first call): every sequence of length 1..3 (quick) / 1..4 (thorough) over 19 read-style calls x a flag 'an earlier write on "
-    "this object failed half-way' (single calls also x FeatureDB opened with default options, keep_order, sort_attribute_values or "
-    "custom pragmas), on a copy of the file, with a sqlite statement trace on the connection (only SELECT/PRAGMA allowed; no call may "
-    "raise other than FeatureNotFoundError), then a canonical comparison of all tables of the closed file and of directives, dialect "
-    "and counters of a reopened FeatureDB; byte identity is recorded as an outcome. Non-trivial = every execution (each has an existing "
-    "database that must survive). force=True is named when forcing; a refusal is asked for by force=False (path input), by omitting the "
-    "argument (string input) or, for Feature-list input (plain variant), by passing id_spec as third positional argument and no force."
+    "deleted again} x new input in 3): force x input form {path, from_string, list of Features; for new input 0 and a non-emptied old "
+    "database also 'selfdb' = the old database itself as a FeatureDB opened on the very path to be rebuilt} x old database opened "
+    "before in this process or not x call variant {plain, rejected merge_strategy/force_merge_fields combination, pragmas=None, input "
+    "file older than the database} x (plain variant only) the database path given as absolute, relative, or a symbolic link in another "
+    "directory with a relative link text; file name t.db (path, selfdb) / t.sqlite3 (others); create_db runs in a scratch working "
+    "directory. Without force create_db must raise and the file's canonical content must be unchanged (also for the failing call "
+    "variants); a failing variant must raise whatever force says; with force the import must not raise, the returned object and the "
+    "reopened file show the new directives/dialect/features, the file equals a fresh import (selfdb: from a copy of the old file) "
+    "canonically and no old feature survives. Part 'reads' (shards = 4 old databases (not the emptied one) x first call): every "
+    "sequence of length 1..3 (quick) / 1..4 (thorough) over 19 read-style calls x a flag 'an earlier write on this object failed "
+    "half-way' (single calls also x FeatureDB opened with default options, keep_order, sort_attribute_values or custom pragmas), on a "
+    "copy of the file, under a sqlite statement trace (only SELECT/PRAGMA allowed; no call may raise other than FeatureNotFoundError), "
+    "then a canonical comparison of all tables of the closed file and of directives, dialect and counters of a reopened FeatureDB; byte "
+    "identity is recorded as an outcome. Non-trivial = every execution. force=True is named when forcing; a refusal is asked for by "
+    "force=False (path input), by omitting the argument (string, selfdb input) or, for Feature-list input (plain variant), by passing "
+    "id_spec as third positional argument and no force."
 )
 ASSUMPTIONS = [
     "the statement trace sees every statement the connection executes (sqlite3.Connection.set_trace_callback)",
     "byte identity of the file is reported as an outcome; the verdict is on canonical content (all tables, counters, dialect, directives)",
+    "a FeatureDB is a legitimate create_db input even when it is open on the target path: a forced rebuild from it gives the database an import from a copy gives",
 ]
 
 GFF = [
